@@ -34,7 +34,12 @@ func (f *File) Sync() error {
 	}
 	new := atomic.SwapUint32(&f.new, 1)
 	if new == 0 {
-		return syncDir(f.dir)
+		if err := syncDir(f.dir); err != nil {
+			// The directory entry is still not durable: the next Sync has to try
+			// again before anything written to this file can be acknowledged.
+			atomic.StoreUint32(&f.new, 0)
+			return err
+		}
 	}
 	return nil
 }
